@@ -94,6 +94,9 @@ def direct_calls(EoN, G, I0, R0, rho):
         sk = lambda e, key: A([e[key][k] for k in Ks])
         calls["SIS_heterogeneous_pairwise" + f] = (EoN.SIS_heterogeneous_pairwise, (sk(Es, "Sk"), sk(Es, "Ik"), A(Es["SkSl"]), A(Es["SkIl"]), A(Es["IkIl"]), 0.6, 0.7), dict(kw, return_full_data=full, Ks=Ks.copy()))
         calls["SIR_heterogeneous_pairwise" + f] = (EoN.SIR_heterogeneous_pairwise, (sk(E, "Sk"), sk(E, "Ik"), sk(E, "Rk"), A(E["SkSl"]), A(E["SkIl"]), 0.6, 0.7), dict(kw, return_full_data=full, Ks=Ks.copy()))
+        # the optional degree array with float dtype (also with degree 0 present)
+        calls["SIS_heterogeneous_pairwise(floatKs)" + f] = (EoN.SIS_heterogeneous_pairwise, (sk(Es, "Sk"), sk(Es, "Ik"), A(Es["SkSl"]), A(Es["SkIl"]), A(Es["IkIl"]), 0.6, 0.7), dict(kw, return_full_data=full, Ks=Ks.astype(float)))
+        calls["SIR_heterogeneous_pairwise(floatKs)" + f] = (EoN.SIR_heterogeneous_pairwise, (sk(E, "Sk"), sk(E, "Ik"), sk(E, "Rk"), A(E["SkSl"]), A(E["SkIl"]), 0.6, 0.7), dict(kw, return_full_data=full, Ks=Ks.astype(float)))
         calls["SIS_compact_pairwise" + f] = (EoN.SIS_compact_pairwise, (A(Es["Sk"]), A(Es["Ik"]), Es["SI"], Es["SS"], Es["II"], 0.6, 0.7), dict(kw, return_full_data=full))
         calls["SIR_compact_pairwise" + f] = (EoN.SIR_compact_pairwise, (A(E["Sk"]), E["I"], E["R"], E["SS"], E["SI"], 0.6, 0.7), dict(kw, return_full_data=full))
         calls["SIS_effective_degree" + f] = (EoN.SIS_effective_degree, (A(Es["Ssi"]), A(Es["Isi"]), 0.6, 0.7), dict(kw, return_full_data=full))
@@ -217,7 +220,7 @@ def run_spec(spec, props=("C19",)):
 def specs(tier):
     out = []
     thorough = tier != "quick"
-    gs = [gr.NAMED[k] for k in ("P3", "K3", "P4", "S4", "C4", "paw")]
+    gs = [gr.NAMED[k] for k in ("P3", "K3", "P4", "S4", "C4", "paw")] + [(4, [(0, 1), (1, 2)]), (5, [(0, 1), (1, 2), (1, 3)])]    # the last two have an isolated node
     if thorough:
         gs = [(n, es) for n, es in gr.small_graphs(3) if es] + [(4, es) for es in gr.shapes(4) if es] + [gr.NAMED["bull"]]
     for n, es in gs:
